@@ -229,6 +229,7 @@ def run(ctx):
     from .. import astgen as A
     from .. import gen as G
     ctx.level('pairs of feature modules', [A.job_shapes.job(__name__, 'pairs', s, 16, ctx.quick) for s in range(16)])
+    ctx.level('one construct repeated 1..12 times', [A.job_shapes.job(__name__, 'repetition', s, 16, ctx.quick) for s in range(16)])
     ctx.level('deviation documents k<=1 via parser', [A.job_deviations.job(__name__, b, 1, 0, 1) for b in range(len(G.base_documents()))])
     from .. import docspace as DS
     mc = ctx.pick(250, 1500)
